@@ -9,6 +9,9 @@ import copy
 import json
 import os
 import re
+import shutil
+import signal
+import subprocess
 import time
 
 from .. import common as C
@@ -29,7 +32,10 @@ ASSUME = ["integer + - * wrap modulo 2^width, / and % truncate toward zero, >> f
           "a deferred expression runs after the value of its block / the returned value has been computed",
           "an unlabeled break/continue is only generated where the innermost enclosing loop-or-labeled-block is a loop",
           "the exit status is compared modulo 256 (what the OS reports); a runtime fault = the events before it, then a non-empty message, exit status 1, no event after it",
-          "programs whose meaning the language does not define (division by zero, MIN / -1, float->int out of range, over-long runs) are discarded by the reference interpreter, never judged"]
+          "programs whose meaning the language does not define (division by zero, MIN / -1, float->int out of range, float overflow/NaN, over-long runs) are discarded by the reference interpreter, never judged",
+          "README is silent on whether the argument of a switch arm is a copy of the payload or an alias of the scrutinee (capy aliases): no generated program writes the scrutinee inside an arm, so the question is never judged",
+          "recorded capy defects are produced only by programs that opt in (each 2.5-5% of the programs; the feature names are appended to the violation signature): variant_direct, "
+          "weak_lit_errunion, selfref_literal_assign, empty_vararg_first, unused_varargs, array_arm_binding, scrutinee_write; all other programs stay away from exactly these spellings"]
 
 MAX_STMTS, MAX_DEPTH, MAX_GLOBALS = 40, 6, 12
 LAYER = 4      # development only: lower layers switch off groups of constructs
@@ -162,6 +168,27 @@ def mentions_name(x, name):
     return False
 
 
+def writes_to(x, name):
+    """does x contain an assignment rooted at `name`, `^mut name...`, or any write through a pointer"""
+    if isinstance(x, A.Block):
+        return any(writes_to(s, name) for s in x.stmts) or writes_to(x.tail, name)
+    if isinstance(x, A.N):
+        if x.k == "assign":
+            r = x.place
+            via = False
+            while r.k in ("field", "index", "deref"):
+                via = via or r.k == "deref" or (r.base.ty[0] in ("ptr", "slice") if r.k != "deref" else False)
+                r = r.base if r.k != "deref" else r.e
+            if via or (r.k == "var" and r.name == name):
+                return True
+        if x.k == "addr" and x.mut and mentions_name(x.place, name):
+            return True
+        return any(writes_to(v, name) for v in x.__dict__.values())
+    if isinstance(x, (list, tuple)):
+        return any(writes_to(y, name) for y in x)
+    return False
+
+
 def has_literal(x):
     if isinstance(x, A.Block):
         return any(has_literal(s) for s in x.stmts) or has_literal(x.tail)
@@ -188,6 +215,11 @@ def feature_tags(prog):
             if x.k == "wrap" and x.how == "ok" and x.e.k == "lit" and x.e.bare and x.e.ty[0] == "int" and (abs(x.e.val) >= (1 << 31) or x.e.val == -(1 << (X.INT_INFO[x.e.ty[1]][0] - 1))):
                 tags.add("weak_lit_errunion")
             if x.k == "switch":
+                r_ = x.scrut
+                while r_.k in ("field", "index", "deref", "unwrap", "cast"):
+                    r_ = r_.base if r_.k in ("field", "index") else r_.e
+                if r_.k == "var" and writes_to([b_ for _, b_ in x.arms] + [x.default], r_.name):
+                    tags.add("scrutinee_write")
                 for pat, blk in x.arms:
                     if pat[0] == "type" and pat[1][0] == "array" and mentions_name(blk, x.bind):
                         tags.add("array_arm_binding")
@@ -215,9 +247,72 @@ def feature_tags(prog):
     return sorted(tags)
 
 
+# --------------------------------------------------------------------------- child processes
+# Same observation points and limits as R.compile_capy / R.link_and_run (release CLI, cwd = case directory,
+# --mod-dir /repo, RLIMIT_CPU / RLIMIT_AS, wall-clock watchdog), but started WITHOUT a python preexec_fn:
+# C.run_proc forks under the GIL, which serialises the 3 process starts per program over all worker threads
+# (measured: 64 x /bin/true in 16 threads 10.7 s with run_proc, 2.9 s this way). The limits are set by `ulimit` in /bin/sh.
+
+def fast_proc(cmd, cwd, cpu_s, mem_gb=4, wall_s=None):
+    wall_s = wall_s or cpu_s * 10 + 10
+    sh = 'ulimit -t %d; ulimit -v %d; ulimit -c 0; exec "$0" "$@"' % (cpu_s, int(mem_gb * (1 << 20)))
+    t0 = time.time()
+    try:
+        p = subprocess.Popen(["/bin/sh", "-c", sh] + list(cmd), cwd=cwd, stdin=subprocess.DEVNULL, stdout=subprocess.PIPE, stderr=subprocess.PIPE,
+                             start_new_session=True, env=C.ENV_BASE)
+    except OSError as e:
+        raise C.Inconclusive("cannot start %s: %s" % (cmd[0], e))
+    timed_out = False
+    try:
+        out, err = p.communicate(timeout=wall_s)
+    except subprocess.TimeoutExpired:
+        timed_out = True
+        try:
+            os.killpg(p.pid, signal.SIGKILL)
+        except ProcessLookupError:
+            pass
+        out, err = p.communicate()
+    rc = p.returncode
+    sig = -rc if rc is not None and rc < 0 else 0
+    wall = time.time() - t0
+    cpu_exceeded = sig in (signal.SIGXCPU, signal.SIGKILL) and not timed_out and wall >= cpu_s * 0.9
+    return C.ProcResult(rc, sig, out.decode("utf-8", "replace"), err.decode("utf-8", "replace"), timed_out, cpu_exceeded, wall)
+
+
+def compile_fast(workdir, files, cpu_s=60):
+    R.write_files(workdir, files)
+    shutil.rmtree(os.path.join(workdir, "out"), ignore_errors=True)
+    r = fast_proc([C.CLI, "build", "main.capy", "--mod-dir", C.REPO, "--no-exec", "--color", "never"], workdir, cpu_s, mem_gb=6)
+    c = R.Compile()
+    c.rc, c.sig, c.out, c.err = r.rc, r.sig, r.out, r.err
+    c.timed_out, c.cpu_exceeded, c.dir, c.wall = r.timed_out, r.cpu_exceeded, workdir, r.wall
+    obj = os.path.join(workdir, "out", "main.o")
+    c.obj = obj if os.path.exists(obj) else None
+    return c
+
+
+def link_run_fast(workdir, obj, cpu_s=10):
+    exe = os.path.join(workdir, "prog")
+    res = R.Run()
+    res.rc = res.sig = None
+    res.out = res.err = ""
+    res.timed_out = res.cpu_exceeded = False
+    for flags in (["-no-pie"], []):
+        r = fast_proc(["gcc"] + flags + [obj, C.RT_OBJ, "-o", exe, "-lm"], workdir, 60, mem_gb=8)
+        res.link_failed, res.link_err = r.rc != 0, r.err[-800:]
+        if not res.link_failed:
+            break
+    if res.link_failed:
+        return res
+    p = fast_proc([exe], workdir, cpu_s, mem_gb=4)
+    res.rc, res.sig, res.out, res.err = p.rc, p.sig, p.out, p.err
+    res.timed_out, res.cpu_exceeded = p.timed_out, p.cpu_exceeded
+    return res
+
+
 def judge(prog, text, exp, d):
     """compile + link + run + compare. -> dict(status='ok'|'violation'|'inconclusive', ...)"""
-    c = R.compile_capy(d, {"main.capy": text}, cpu_s=60)
+    c = compile_fast(d, {"main.capy": text}, cpu_s=60)
     if c.timed_out or c.cpu_exceeded:
         return {"status": "inconclusive", "why": "compile watchdog"}
     if c.internal_error:
@@ -228,7 +323,7 @@ def judge(prog, text, exp, d):
         shape = re.sub(r"`[^`]*`", "`_`", kinds[0]) if kinds else "no diagnostic"
         return {"status": "violation", "key": "rejected_welltyped", "sig": "rejected_welltyped|" + shape[:80],
                 "what": "a well-typed program is rejected: " + (kinds[0] if kinds else c.brief()[:200]), "observed": strip_noise(c.brief())[:900]}
-    r = R.link_and_run(d, c.obj, cpu_s=10)
+    r = link_run_fast(d, c.obj, cpu_s=10)
     if r.link_failed:
         return {"status": "inconclusive", "why": "link failed: " + r.link_err[-200:]}
     if r.timed_out and not r.cpu_exceeded:
@@ -279,6 +374,7 @@ def norm_panic(sig):
     """drops the type that happens to be printed in two assertion messages (one defect, many spellings)"""
     sig = re.sub(r"(the previous two arms should've caught this).*", r"\1", sig)
     sig = re.sub(r"\|[^|]* can not cast to .*", "|_ can not cast to _", sig)
+    sig = re.sub(r"(cast_into_memory)\|(Concrete|UInt|IInt|Bool|Char|Void|Float|Enum|Slice|Pointer|Distinct|Optional|ErrorUnion)\w*\b.*", r"\1|_ can not cast to _", sig)
     return sig
 
 
@@ -389,6 +485,9 @@ def minimise(prog, verdict, d, max_tests=60):
             while size >= 1 and tests[0] < max_tests:
                 si = len(all_blocks(best)[bi].stmts) - size
                 while si >= 0 and tests[0] < max_tests:
+                    if any(getattr(st, "keep", False) for st in all_blocks(best)[bi].stmts[si:si + size]):
+                        si -= size       # generator-inserted guard statements stay (they keep a recorded defect away)
+                        continue
                     cand = copy.deepcopy(best)
                     del all_blocks(cand)[bi].stmts[si:si + size]
                     r = still(cand)
@@ -534,7 +633,6 @@ def reexpect(prog):
 
 
 def shutil_clean(work):
-    import shutil
     for name in os.listdir(work):
         if name.startswith("p"):
             shutil.rmtree(os.path.join(work, name), ignore_errors=True)
